@@ -32,54 +32,86 @@ def rule_r1(chk, p, t):
     )
     fn = p.func(f"{METHODS}.radarObs2eciPosition")
 
+    COMPOSITES = ("sez2eci", "eci2sez", "lla2eci", "eci2lla")
+
+    def _positional(call, fi):
+        """Arguments of a call to a repo function in parameter order (keywords bound); None when not bindable."""
+        ps = fi.params
+        if any(isinstance(a, ast.Starred) for a in call.args) or len(call.args) > len(ps):
+            return None
+        out = list(call.args) + [None] * (len(ps) - len(call.args))
+        for k in call.keywords:
+            if k.arg not in ps or out[ps.index(k.arg)] is not None:
+                return None
+            out[ps.index(k.arg)] = k.value
+        return out if all(x is not None for x in out) else None
+
+    def _expand(e, depth=0):
+        """Keywords bound to positions for the conversion functions; composite conversions replaced by their own
+        (single-return) definition in terms of the primitives - so `sez2eci(x, lat, lon, t)` and
+        `ecef2eci(sez2ecef(x, lat, lon), t)` read the same."""
+        import copy
+
+        class X(ast.NodeTransformer):
+            def visit_Call(self, n):
+                self.generic_visit(n)
+                nm = call_name(n)
+                if isinstance(n.func, ast.Name) and p.has_func(f"{METHODS}.{nm}"):
+                    fi = p.func(f"{METHODS}.{nm}")
+                    args = _positional(n, fi)
+                    if args is None:
+                        return n
+                    if nm in COMPOSITES and depth < 4:
+                        rets = [x for x in walk_no_nested(fi.node) if isinstance(x, ast.Return) and x.value is not None]
+                        if len(rets) == 1:
+                            body = inline_locals(fi, rets[0].value)
+                            m = dict(zip(fi.params, args))
+
+                            class S(ast.NodeTransformer):
+                                def visit_Name(self, nn):
+                                    return copy.deepcopy(m[nn.id]) if nn.id in m else nn
+
+                            return _expand(S().visit(copy.deepcopy(body)), depth + 1)
+                    return ast.copy_location(ast.Call(func=n.func, args=args, keywords=[]), n)
+                return n
+
+        return X().visit(copy.deepcopy(e))
+
     def one():
         ob = fn.params[0]
-        defs = single_defs(fn.node)
+        rets = [n for n in walk_no_nested(fn.node) if isinstance(n, ast.Return) and n.value is not None]
+        require(len(rets) == 1, "radarObs2eciPosition: single return expected", fn.node)
+        got = _expand(inline_locals(fn, rets[0].value))
+        T = f"julianDateToDatetime(JulianDate({ob}.julian_date))"
+        LLA = f"ecef2lla(eci2ecef({ob}.sensor_eci, {T}))"
+        ref_src = f"sez2eci(razel2sez({ob}.range_km, {ob}.elevation_rad, {ob}.azimuth_rad, 0, 0, 0), {LLA}[0], {LLA}[1], {T})[:3] + {ob}.sensor_eci[:3]"
+        ref = _expand(ast.parse(ref_src, mode="eval").body)
         bad = []
-        sez = defs.get("observation_sez")
-        if not (isinstance(sez, ast.Call) and call_name(sez) == "razel2sez"):
-            bad.append("the observation is not converted by razel2sez")
-        else:
-            rz = p.func(f"{METHODS}.razel2sez")
-            args = [unparse(a) for a in sez.args]
-            want = {"rng": f"{ob}.range_km", "el": f"{ob}.elevation_rad", "az": f"{ob}.azimuth_rad"}
-            for i, prm in enumerate(rz.params[:3]):
-                if i >= len(args) or args[i] != want.get(prm):
-                    bad.append(f"razel2sez parameter `{prm}` receives `{args[i] if i < len(args) else None}` (expected {want.get(prm)})")
-            if args[3:] != ["0", "0", "0"]:
-                bad.append(f"rates {args[3:]}")
-        dt = defs.get("ob_datetime")
-        if dt is None or unparse(dt) != f"julianDateToDatetime(JulianDate({ob}.julian_date))":
-            bad.append(f"instant `{unparse(dt) if dt is not None else None}` is not the observation's own epoch")
-        se = defs.get("sensor_ecef")
-        if se is None or unparse(se) != f"eci2ecef({ob}.sensor_eci, ob_datetime)":
-            bad.append("sensor not made Earth-fixed at the observation instant")
-        lla = defs.get("sensor_lla")
-        if lla is None or unparse(lla) != "ecef2lla(sensor_ecef)":
-            bad.append("site angles are not the sensor's geodetic coordinates")
-        rel = defs.get("eci_relative_pos")
-        ok_rel = isinstance(rel, ast.Call) and call_name(rel) == "sez2eci"
-        if ok_rel:
-            s2e = p.func(f"{METHODS}.sez2eci")
-            bound = {}
-            for i, a in enumerate(rel.args):
-                bound[s2e.params[i]] = unparse(a)
-            for k in rel.keywords:
-                bound[k.arg] = unparse(k.value)
-            wantb = {"x_sez": "observation_sez", "lat": "sensor_lla[0]", "lon": "sensor_lla[1]", "utc_date": "ob_datetime"}
-            for k, v in wantb.items():
-                if bound.get(k) != v:
-                    bad.append(f"sez2eci {k} = `{bound.get(k)}` (expected {v})")
-        else:
-            bad.append("relative position is not rotated by sez2eci")
-        rets = [n for n in walk_no_nested(fn.node) if isinstance(n, ast.Return)]
-        want_r = canon(ast.parse(f"eci_relative_pos[:3] + {ob}.sensor_eci[:3]", mode="eval").body)
-        if not rets or canon(rets[0].value) != want_r:
-            bad.append(f"result `{unparse(rets[0].value) if rets else None}` (expected relative position + sensor position)")
+        if canon(got) != canon(ref):
+            # diagnose the usual slips: which part differs
+            gtxt = unparse(got)
+            rz = [c for c in ast.walk(got) if isinstance(c, ast.Call) and call_name(c) == "razel2sez"]
+            if not rz:
+                bad.append("the observation is not converted by razel2sez")
+            else:
+                args = [unparse(a) for a in rz[0].args]
+                want = [f"{ob}.range_km", f"{ob}.elevation_rad", f"{ob}.azimuth_rad", "0", "0", "0"]
+                names = p.func(f"{METHODS}.razel2sez").params
+                for i, (a, w) in enumerate(zip(args, want)):
+                    if a != w:
+                        bad.append(f"razel2sez parameter `{names[i] if i < len(names) else i}` receives `{a}` (expected {w})")
+            if T not in gtxt:
+                bad.append("the conversions are not evaluated at the observation's own epoch")
+            if "ecef2lla(" not in gtxt:
+                bad.append("site angles are not the sensor's geodetic coordinates (ecef2lla of the Earth-fixed sensor position)")
+            if "sez2ecef(" not in gtxt or "ecef2eci(" not in gtxt:
+                bad.append("relative position is not rotated SEZ -> Earth-fixed -> inertial")
+            if not bad:
+                bad.append(f"result `{unparse(inline_locals(fn, rets[0].value))[:160]}` differs from sensor + sez2eci(razel2sez(range, el, az, 0, 0, 0), lat, lon, instant)")
         if bad:
-            r.violation(fn.qualname, "inversion:" + ";".join(bad), "radarObs2eciPosition does not invert the measurement model: " + "; ".join(bad), fn.loc())
+            r.violation(fn.qualname, "inversion:" + ";".join(b[:60] for b in bad), "radarObs2eciPosition does not invert the measurement model: " + "; ".join(bad), fn.loc())
         else:
-            r.ok(fn.qualname, "sensor + sez2eci(razel2sez(range, el, az, 0, 0, 0), lat, lon, instant)", fn.loc(), obligations=8)
+            r.ok(fn.qualname, "sensor + sez2eci(razel2sez(range, el, az, 0, 0, 0), lat, lon, instant) - compared after inlining locals and expanding composite conversions", fn.loc(), obligations=8)
 
     r.guard(fn.qualname, one)
     # the forward model measures the same three quantities of the same slant range
